@@ -378,7 +378,7 @@ def r2_call_sites(run, w):
       run.ob(R2, fi.qualname, short(c), "the call supplies the bundle's action summary, and the "
              "action's own row ids", kw is not None and
              H.canon(cf, kw) == "self.out_actions.summary" and rows is not None and
-             isinstance(H.deref(cf, rows), (ast.Name, ast.Attribute)), fi=fi, node=c)
+             H._pure(H.deref(cf, rows)), fi=fi, node=c)
   if n == 0:
     raise AnalysisError("no prepare_new_values call site found")
   # both halves of convert_action_values: mentioned columns, and all other data columns on adds
